@@ -133,8 +133,8 @@ def run(tier):
     sd = seed()
     quick = tier == 'quick'
     cbuild.repo_only()
-    nsim = 130 if quick else 1800
-    ng2 = 96 if quick else 1600
+    nsim = 130 if quick else 1000
+    ng2 = 96 if quick else 1000
     # ---- A: the specification itself, in the background
     mcres = []
     mcjobs = [('SubFix_mc.cfg', 3, 3)] if quick else [('SubFix_mcx.cfg', 3, 3), ('SubFix_mc.cfg', 1, 2), ('SubFix_mc.cfg', 0, 0),
